@@ -29,6 +29,8 @@ def generate(tier, seed):
     for k in range(n):
         cases.append({"kind": "built", "mode": ("subset", "subset", "all", "single", "ghost", "ghost-only")[k % 6],
                       "seed": "%d:b:%d" % (seed, k), "cost": 16})
+    for k in range(40 if tier == "quick" else 2500):
+        cases.append({"kind": "two-files", "mode": "two-files", "seed": "%d:tf:%d" % (seed, k), "cost": 30})
     return cases
 
 
@@ -48,12 +50,56 @@ def all_residues(recs):
     return out
 
 
+def two_files_case(case, rng, viol, counts, classes):
+    """One invocation of propka.run.main with two or three files and one -i list that names residues
+    of each of them: every file must be treated exactly as if it were run on its own with that list."""
+    from .. import obs, pdbio, sources, util
+    files = []
+    listed = []
+    for k in range(rng.choice((2, 2, 3))):
+        recs = sources.random_small_structure(rng, 60, 500) if rng.random() < 0.6 else sources.chimera(rng, allow_blank=False)[0]
+        recs = [r for r in recs if r.raw is not None or (r.alt in (" ", "A") and r.chain != " ")]
+        if not pdbio.atoms(recs) or not sources.identities_unique(recs):
+            continue
+        res = all_residues(recs)
+        tit = [r for r in util.titratable_residues(recs) if r[0] != " "] or res
+        listed.append(rng.sample(tit, min(len(tit), rng.choice((1, 2, 4)))))
+        files.append(("f%d.pdb" % k, pdbio.dump(recs)))
+    if len(files) < 2:
+        return {"kind": "two-files"}, "fewer than two usable structures"
+    L = [r for part in listed for r in part]
+    rng.shuffle(L)
+    arg = ",".join(util.res_arg(r) for r in L)
+    texts, exc = obs.run_main(files, ["-i", arg])
+    counts["pipeline_runs"] = 1 + len(files)
+    counts["multi_file_invocations"] = 1
+    desc = {"kind": "two-files", "files": len(files), "listed": len(L), "exc": exc}
+    if exc:
+        viol.append({"cls": "multi-file-invocation-raises", "msg": "main with %d files and -i %s raised %s" % (len(files), arg[:60], exc)})
+        return desc, None
+    for name, text in files:
+        alone = obs.run_single(text, ["-i", arg], name=name)
+        if alone.exc:
+            continue
+        a = obs.parse_pka_text(alone.text)
+        b = obs.parse_pka_text(texts[name]) if texts.get(name) else None
+        counts["multi_file_comparisons"] = counts.get("multi_file_comparisons", 0) + 1
+        if b is None or a["summary"] != b["summary"] or a["det_rows"] != b["det_rows"] or a["charge"] != b["charge"]:
+            viol.append({"cls": "list-differs-for-later-file", "msg": "file %s of a %d-file invocation with -i %s: summary %r, run on its own %r" % (
+                name, len(files), arg[:80], (b or {}).get("summary", [])[:3], a["summary"][:3])})
+    classes.append("mode:two-files")
+    return desc, None
+
+
 def run_case(case, tier):
     from .. import obs, pdbio, sources, util
     from ..monitors import census_mon
     from . import c01
     rng = random.Random(case["seed"])
     viol, counts, classes = [], {}, []
+    if case["kind"] == "two-files":
+        desc, inc = two_files_case(case, rng, viol, counts, classes)
+        return util.finish(case, viol, counts, classes, inc is None and not viol, desc, inconclusive=inc)
     desc = {"kind": case["kind"], "mode": case["mode"]}
     if case["kind"] == "file":
         recs = sources.no_water(sources.repo_recs(case["file"]))
